@@ -256,7 +256,7 @@ func (w *world) checkSelection(b *blockchain.Block, pooled []poolTx) (nontrivial
 		if !ok {
 			w.fail("forged block contains transaction %x that was not processable in the pool", tx.ID[:4])
 		}
-		size += tx.Size()
+		size += len(tx.Encode()) // own measure, not the cached Size()
 		// per-sender nonce order: must be the sender's next transaction
 		idx := taken[p.sender]
 		if idx >= len(bySender[p.sender]) || !bytes.Equal(bySender[p.sender][idx].tx.ID, tx.ID) {
@@ -266,14 +266,14 @@ func (w *world) checkSelection(b *blockchain.Block, pooled []poolTx) (nontrivial
 			w.fail("transaction %x failing %s was included", tx.ID[:4], p.failAt)
 		}
 		// fee priority: maximal among the current heads of senders that are not blocked by a failure
-		prio := tx.Fee / uint64(tx.Size())
+		prio := tx.Fee / uint64(len(tx.Encode()))
 		for s, list := range bySender {
 			if blocked[s] || taken[s] >= len(list) {
 				continue
 			}
 			// a head that fails verification/execution is popped (and its sender skipped) before anything cheaper is taken
 			head := list[taken[s]]
-			hp := head.tx.Fee / uint64(head.tx.Size())
+			hp := head.tx.Fee / uint64(len(head.tx.Encode()))
 			if hp > prio && s != p.sender {
 				if head.failAt == "verify" || head.failAt == "verify-pending" || head.failAt == "execute-invalid" {
 					blocked[s] = true
@@ -296,7 +296,7 @@ func (w *world) checkSelection(b *blockchain.Block, pooled []poolTx) (nontrivial
 	}
 	total := 0
 	for _, p := range pooled {
-		total += p.tx.Size()
+		total += len(p.tx.Encode())
 	}
 	cut = total > int(w.maxTxSize)
 	return senders >= 2 && failures >= 1 && cut
